@@ -12,11 +12,11 @@ namespace TdModel.C29
 
 /-- The regenerated facts: `errRetryableOnNewConn` is exactly `ErrConnDead ∨ ErrEngineClosed`, an
 un-acknowledged forced close reports the cause `ErrEngineClosed`, an acknowledged one reports the plain
-context error, `invokeConn` waits for `connChanged` / the client context, `replaceConn` signals — and, on
-the current tree, a failed transport send is returned to the caller as a plain error (the open finding). -/
+context error, `invokeConn` waits for `connChanged` / the client context, `replaceConn` signals, and a failed transport send is mapped to `pool.ErrConnDead` by
+`manager.Conn.Invoke` (so it does not surface to the caller). -/
 theorem source_facts :
     cfgOfSource = { unackedRetryable := true, ackedNotRetryable := true, closeUnblocks := true,
-                    sendErrorSurfaces := true } := by decide
+                    sendErrorSurfaces := false } := by decide
 
 /-- **Acknowledged requests are not sent again**: once the client has processed the acknowledgement
 (or the result) of request `r` on connection epoch `a`, the server never receives a copy of `r` on a
@@ -49,35 +49,53 @@ theorem unacked_not_failed (s : State) (r : Nat) (q : Req) (hq : s.reqs[r]? = so
     exact ⟨{ q with phase := .waitConn }, by simp [setReq, hlt], rfl⟩
 
 /-- **Errors are returned only for acknowledged requests whose connection was lost, or because the
-client was closed** — PARTIAL: proved for the configuration in which a failed transport send does not
-surface (`sendErrorSurfaces := false`).  The full statement for the current source is false, see
-`unsent_error_counterexample`; what holds for the current source is `error_reasons`. -/
-theorem error_only_if_acked_or_closed_partial (n : Nat) (s : State)
-    (h : Reachable { cfgOfSource with sendErrorSurfaces := false } n s) (r : Nat) (q : Req)
+client was closed**: every request for which `Invoke` returned an error either had its acknowledgement
+processed by the client before the connection died (it must not be sent again), or the client was closed.
+In particular a request that the server had not acknowledged is never failed while the client is open. -/
+theorem error_only_if_acked_or_closed (n : Nat) (s : State) (h : Reachable cfgOfSource n s) (r : Nat) (q : Req)
     (hq : s.reqs[r]? = some q) (hp : q.phase = .doneErr) :
     (q.reason = .ackedLost ∧ q.ackSeen ≠ none) ∨ (q.reason = .closed ∧ s.closed = true) := by
-  -- `sendFail` is never enabled in this configuration, so the reason `sendError` is never assigned
   obtain ⟨as, hrun⟩ := h
-  have hne := noSendErr_run _ rfl as (noSendErr_init n) hrun r q hq
+  have hne := noSendErr_run cfgOfSource (by decide) as (noSendErr_init n) hrun r q hq
   rcases ((inv_reachable ⟨as, hrun⟩).req r q hq).2.2.2.2.1 hp with h' | h' | h'
   · exact Or.inl h'
   · exact Or.inr h'
   · exact absurd h' hne
 
-/-- What holds for the current source: an error is returned for an acknowledged request whose
-connection was lost, because the client was closed, or because the send itself failed. -/
-theorem error_reasons (n : Nat) (s : State) (h : Reachable cfgOfSource n s) (r : Nat) (q : Req)
-    (hq : s.reqs[r]? = some q) (hp : q.phase = .doneErr) :
-    (q.reason = .ackedLost ∧ q.ackSeen ≠ none) ∨ (q.reason = .closed ∧ s.closed = true) ∨ q.reason = .sendError :=
-  ((inv_reachable h).req r q hq).2.2.2.2.1 hp
-
-/-- **Counterexample (open finding)**: on the current source a request issued after the transport died
-but before the client noticed fails with the transport's write error and is returned to the caller —
+/-- Pre-fix behaviour (repaired by 958ee5b91): while a failed transport send surfaced, a request issued
+after the transport died but before the client noticed was returned to the caller with the write error —
 never sent, never acknowledged, client not closed. -/
 theorem unsent_error_counterexample :
-    ∃ s, run cfgOfSource (init 1) [.inv 0, .kill, .sendFail 0] = some s ∧ s.closed = false ∧
+    ∃ s, run { cfgOfSource with sendErrorSurfaces := true } (init 1) [.inv 0, .kill, .sendFail 0] = some s ∧
+      s.closed = false ∧
       s.reqs[0]? = some { phase := .doneErr, reason := .sendError, ackSeen := none } ∧ s.arrivals = [] ∧
       holdsB s = false := ⟨_, rfl, by decide⟩
+
+/-- The driver's executable monitor holds in every reachable state. -/
+theorem holdsB_reachable (n : Nat) (s : State) (h : Reachable cfgOfSource n s) : holdsB s = true := by
+  have hI := inv_reachable h
+  unfold holdsB
+  simp only [Bool.and_eq_true, List.all_eq_true, List.mem_range, decide_eq_true_eq]
+  refine ⟨?_, hI.nodup⟩
+  intro r _
+  split
+  · rename_i q hq
+    rw [Bool.and_eq_true]
+    refine ⟨?_, ?_⟩
+    · split
+      · rename_i a ha
+        rw [List.all_eq_true]
+        intro e he
+        have := (((hI.req r q hq).2.2.2.1 a ha).2)
+        by_cases her : e.1 = r
+        · have hm : (r, e.2) ∈ s.arrivals := by rw [← her]; exact he
+          simp [her, this e.2 hm]
+        · simp [her]
+      · rfl
+    · by_cases hp : q.phase = .doneErr
+      · rcases error_only_if_acked_or_closed n s h r q hq hp with ⟨h', _⟩ | ⟨h', _⟩ <;> simp [h']
+      · simp [hp]
+  · rfl
 
 /-- **A closed client returns**: once the client is closed, every invocation that has not returned
 yet can return (with an error) — it does not wait for a reconnect, and no reconnect happens. -/
